@@ -19,6 +19,7 @@ import (
 	"os"
 	"strconv"
 	"strings"
+	"sync"
 	"time"
 
 	"github.com/siglens/siglens/pkg/ast/pipesearch"
@@ -122,6 +123,50 @@ func e2eWorkerMain() {
 			}
 			eflag, _ := resp["errors"].(bool)
 			b, _ := json.Marshal(map[string]interface{}{"bulk": true, "items": sts, "errors": eflag})
+			out.Write(b)
+			out.WriteByte('\n')
+			out.Flush()
+		case "bulkpar":
+			// bulkpar <hex body> <hex body> …: the bodies are posted CONCURRENTLY (one goroutine each)
+			type br struct {
+				Items  []int `json:"items"`
+				Errors bool  `json:"errors"`
+			}
+			res := make([]br, len(f)-1)
+			var wg sync.WaitGroup
+			start := make(chan struct{})
+			for bi, hx := range f[1:] {
+				body, err := hex.DecodeString(hx)
+				if err != nil {
+					fmt.Fprintln(os.Stderr, "bad hex")
+					os.Exit(4)
+				}
+				wg.Add(1)
+				go func(bi int, body []byte) {
+					defer wg.Done()
+					<-start
+					_, resp, _ := eswriter.HandleBulkBody(body, nil, uint64(bi+1), 0, false)
+					if items, ok := resp["items"].([]interface{}); ok {
+						for _, it := range items {
+							m, _ := it.(map[string]interface{})
+							st := 0
+							if ix, ok := m["index"].(map[string]interface{}); ok {
+								if v, ok := ix["status"].(int); ok {
+									st = v
+								}
+							}
+							if v, ok := m["status"].(int); ok {
+								st = v
+							}
+							res[bi].Items = append(res[bi].Items, st)
+						}
+					}
+					res[bi].Errors, _ = resp["errors"].(bool)
+				}(bi, body)
+			}
+			close(start)
+			wg.Wait()
+			b, _ := json.Marshal(map[string]interface{}{"bulkpar": res})
 			out.Write(b)
 			out.WriteByte('\n')
 			out.Flush()
